@@ -15,7 +15,7 @@ P = {
  "C01": (True, "seq", "differential runtime monitor: reference model replayed over the ordered callback log of generated sequences",
    "Held on the generated sequences only: every return value, entry, iterator and deletion event of each operation is compared with a map-with-deadlines model after every operation, over hostile configurations (all size/expiry/refresh kinds, tiny maxima, deadline-exact clock moves).",
    "The model in harness/internal/seq/model.go is the specification as read from the property; inputs are sampled, not enumerated.", "4/C01"),
- "C03": (True, "seq", "differential runtime monitor with expired-but-unswept state forcing (manual clock moved exactly onto deadlines)",
+ "C03": (True, "seq", "differential runtime monitor with expired-but-unswept state forcing (manual clock moved exactly onto deadlines) + concurrent phased trials in which every exposed value is compared with its deadline; race detector",
    "Held on the explored sequences: every public operation is applied to keys whose deadline has been reached but which maintenance has not removed, and any exposure of such a value (return value, previous value, iterator, revival) is a violation.",
    "Clock moves only between operations (manual clock); model trusted.", "4/C03"),
  "C07": (True, "seq", "online monitor over deletion events: each Overflow/Expiration event is judged against the model's total weight / deadline at that moment",
@@ -24,13 +24,13 @@ P = {
  "C10": (True, "seq", "differential runtime monitor over loader-controlled outcomes (value, error, ErrNotFound, panic, partial/extra/empty bulk maps)",
    "Held on the explored sequences: (result, error), loader argument lists and the cache contents after every Get/BulkGet equal the model's.",
    "Loader outcomes are driven by the harness; bulk error outcomes return no partial map.", "4/C10"),
- "C11": (True, "seq", "differential runtime monitor around refresh deadlines with a same-goroutine executor",
+ "C11": (True, "seq", "differential runtime monitor around refresh deadlines with a same-goroutine executor + concurrent scenarios with a gated loader (readers during an in-flight reload, refresh messages judged at quiescence); race detector",
    "Held on the explored sequences: stale reads return the cached value and hand off exactly one reload, reload outcomes map to install / keep / remove, manual Refresh delivers exactly one message (nil channel without a refresh policy).",
    "Executor runs tasks inline; reload tasks whose loader panics are not judged (nothing is promised for them).", "4/C11"),
  "C12": (True, "seq", "differential runtime monitor on ExpiresAtNano/RefreshableAtNano after every operation, durations up to MaxInt64, three clock origins",
    "Held on the explored sequences: after every operation each key's deadlines equal operation time + the policy's duration with saturation, and visibility flips exactly at the deadline.",
    "Durations are drawn in [1ns, MaxInt64]; calculators returning <= 0 are outside the stated quantifier.", "4/C12"),
- "C13": (True, "seq", "runtime monitor of the sweep rule at every CleanUp (entries older than one tick must be gone and reported)",
+ "C13": (True, "seq", "runtime monitor of the sweep rule at every CleanUp (entries older than one tick must be gone and reported as expired) over generated sequences, writer-parked-in-NowNano schedules and deadline-extension scenarios",
    "Held on the explored sequences: TTLs from ns to years, clock jumps up to many wheel revolutions; entries whose deadline was moved backwards are exempt (the property's proviso).",
    "Tick = 2^30 ns; sequential schedules plus writer/maintenance clock-parked schedules.", "4/C13"),
  "C19": (True, "seq", "round-trip differential monitor: source cache driven by a generated sequence, SaveCacheTo, clock offset, LoadCacheFrom into an empty cache with equal/larger/smaller maximum",
@@ -48,7 +48,7 @@ P = {
  "C05": (True, "conc", "quiescence monitor: view equalities (WeightedSize, EstimatedSize, Hottest/Coldest vs All) + white-box structural audit of deques, weight totals and timer wheel through VerifAudit; race detector",
    "Held on the explored concurrent trials: every table node is alive and linked exactly once in the queue its flag names, per-queue weight sums equal the running totals, nothing dead is linked.",
    "The audit reads internal state through the verif-tag export under the eviction lock; schedules are sampled.", "4/C05"),
- "C06": (True, "conc", "offline checker over both deletion-handler logs: exactly-once, conservation (written = present + reported), handler agreement, cause explanation, per-key order along the install chain; race detector",
+ "C06": (True, "conc", "offline checker over both deletion-handler logs: exactly-once, conservation (written = present + reported), handler agreement, cause explanation, per-key order along the install chain (concurrent trials with a size bound, phased trials with expiry) + exact per-operation event multiset in the sequential engine incl. the queued-executor mode; race detector",
    "Held on the explored trials, sequential (exact expected event multiset per operation, in the C01 engine) and concurrent (replacement racing with eviction, InvalidateAll racing with writers, sync and async executors).",
    "Unique values make the histories unambiguous; OnDeletion is judged after the executor is idle.", "4/C06"),
  "C14": (True, "conc", "quiescence audit without any further cache call (VerifAudit: drain status idle, write buffer empty, weightedSize <= maximum, notifications delivered) over thousands of short trials with the default executor made countable; delays at the drain-protocol yield points",
